@@ -13,7 +13,7 @@ from vlib.core import Inconclusive
 LEVEL = "model_checking"
 
 # (SegLens operator, MaxFill, RichFills)
-QUICK = [("L1", 2, 2), ("L2", 2, 2), ("L3", 2, 1), ("L2", 3, 1)]
+QUICK = [("L1", 2, 2), ("L2", 2, 2), ("L3", 3, 1), ("L2", 3, 1)]
 THOROUGH = [("L1", 3, 2), ("L2", 3, 2), ("L3", 3, 1), ("L4", 3, 1), ("L2", 4, 1), ("L3", 4, 0)]
 
 
